@@ -17,16 +17,19 @@ Import ListNotations.
 Theorem C01_exactly_once : forall s, reach s -> ifail s = None ->
   concat (submitted s) ++ concat (ready s) = seq 0 (taken s) /\ taken s <= N s.
 Proof. exact partition_invariant. Qed.
+Print Assumptions C01_exactly_once.
 
 Theorem C01_no_duplicates : forall s, reach s -> ifail s = None ->
   NoDup (concat (submitted s) ++ concat (ready s)).
 Proof. exact submitted_nodup. Qed.
+Print Assumptions C01_no_duplicates.
 
 (* ordered mode: what has been delivered so far is always a prefix of the sequential results ... *)
 Theorem C01_results_prefix : forall s, reach s -> mode (c s) = Ordered -> ifail s = None ->
   exception s = false -> abandoned s = false ->
   exists rest, delivered s ++ rest = seq 0 (taken s) /\ taken s <= N s.
 Proof. exact ordered_output_is_prefix. Qed.
+Print Assumptions C01_results_prefix.
 
 (* ... and when the call ends normally it is exactly [run 0; ...; run (N-1)], whatever the completion
    order, the batch sizes and the interleaving of callbacks with the caller were, and whatever happened
@@ -35,11 +38,13 @@ Theorem C01_results_complete : forall s, reach s -> mode (c s) = Ordered -> ifai
   phase s = Finished -> exception s = false -> abandoned s = false ->
   delivered s = seq 0 (N s).
 Proof. exact ordered_output_complete. Qed.
+Print Assumptions C01_results_complete.
 
 (* n_jobs = 1: the sequential path yields the tasks in order, each once *)
 Theorem C01_sequential : forall tfail tasks, (forall i, In i tasks -> tfail i = false) ->
   seq_run tfail tasks = (tasks, None).
 Proof. exact seq_run_ok. Qed.
+Print Assumptions C01_sequential.
 
 (* batch_size='auto': whatever the measured durations (and whatever the floating-point expression
    int(old * MIN_IDEAL_BATCH_DURATION / duration) evaluates to), every batch size handed to
@@ -47,12 +52,14 @@ Proof. exact seq_run_ok. Qed.
 Theorem C01_auto_batch_size_positive : forall steps old, (1 <= old)%Z ->
   Forall (fun b => (1 <= b)%Z) (run_sizes old steps).
 Proof. exact run_sizes_pos. Qed.
+Print Assumptions C01_auto_batch_size_positive.
 
 (* known finding F6: pre_dispatch evaluating to 0 (excluded from `reach` by wf_ev) drops every task *)
 Theorem C01_predispatch_zero_refuted :
   let r := run_events true init f6_events in
   snd r = [[]; []; []; [Stop]] /\ delivered (fst r) = [] /\ N (fst r) = 3 /\ exception (fst r) = false.
 Proof. exact predispatch_zero_returns_nothing. Qed.
+Print Assumptions C01_predispatch_zero_refuted.
 
 (* non-vacuity: a reachable state satisfying every hypothesis of C01_results_complete *)
 Example C01_example :
@@ -62,3 +69,4 @@ Proof.
   split; [apply reach_run; [constructor | exact demo_wf]|].
   destruct demo_run as (A & B & C & D & _). auto.
 Qed.
+Print Assumptions C01_example.
